@@ -46,6 +46,7 @@ impl CSPSolverState {
 pub struct ConstraintSatisfactionSolver {
     pub state: CSPSolverState,
     pub model: Ghost<Model>,            // conjunction of everything posted so far
+    pub base: Ghost<Model>,             // the model a proof is about: what was posted, without the bounds an optimisation procedure adds (kept by every operation here)
     pub cur: Ghost<Asg>,                // the engine's assignment while it holds a solution
 }
 pub enum CoreExtractionResult { Core(Vec<Predicate>), ConflictingAssumption(Predicate) }
@@ -59,7 +60,7 @@ impl ConstraintSatisfactionSolver {
     pub fn solve_under_assumptions<T: TerminationCondition, B: Brancher>(&mut self, assumptions: &[Predicate], termination: &mut T, brancher: &mut B) -> (r: CSPSolverExecutionFlag)
         requires old(self).ready()
         ensures
-            final(self).model == old(self).model,
+            final(self).model == old(self).model, final(self).base == old(self).base,
             r is Feasible ==> final(self).state.phase@ is HasSolution && (final(self).model@)(final(self).cur@) && all_hold(assumptions@, final(self).cur@),
             r is Infeasible ==> (final(self).state.phase@ is RootInfeasible && final(self).unsat())
                 || (final(self).state.phase@ is InfeasibleUnderAssumptions && assumptions@.len() > 0
@@ -72,7 +73,7 @@ impl ConstraintSatisfactionSolver {
     pub fn solve<T: TerminationCondition, B: Brancher>(&mut self, termination: &mut T, brancher: &mut B) -> (r: CSPSolverExecutionFlag)
         requires old(self).ready()
         ensures
-            final(self).model == old(self).model,
+            final(self).model == old(self).model, final(self).base == old(self).base,
             r is Feasible ==> final(self).state.phase@ is HasSolution && (final(self).model@)(final(self).cur@),
             r is Infeasible ==> final(self).state.phase@ is RootInfeasible && final(self).unsat(),
             r is Timeout ==> final(self).state.phase@ is TimedOut,
@@ -81,7 +82,7 @@ impl ConstraintSatisfactionSolver {
     // proved in engine_state (restore_state_at_root: every result hands back a usable solver)
     #[verifier::external_body]
     pub fn restore_state_at_root<B: Brancher>(&mut self, brancher: &mut B)
-        ensures final(self).model == old(self).model, final(self).ready(),
+        ensures final(self).model == old(self).model, final(self).base == old(self).base, final(self).ready(),
                 old(self).state.phase@ is RootInfeasible <==> final(self).state.phase@ is RootInfeasible,
     { unimplemented!() }
 
@@ -91,8 +92,12 @@ impl ConstraintSatisfactionSolver {
     pub fn get_decision_level(&self) -> (r: usize) { unimplemented!() }
     #[verifier::external_body]
     pub fn conclude_proof_unsat(&mut self) -> (r: Result<(), ()>) ensures *final(self) == *old(self) { unimplemented!() }
+    // @C06 the concluded bound is a DUAL bound: it holds in every solution of the model the proof is about
     #[verifier::external_body]
-    pub fn conclude_proof_optimal(&mut self, bound: Predicate) -> (r: Result<(), ()>) ensures *final(self) == *old(self) { unimplemented!() }
+    pub fn conclude_proof_optimal(&mut self, bound: Predicate) -> (r: Result<(), ()>)
+        requires forall|a: Asg| #![trigger (old(self).base@)(a)] (old(self).base@)(a) ==> pred_holds(bound, a)
+        ensures *final(self) == *old(self)
+    { unimplemented!() }
 
     // adds exactly the clause; an error means the accumulated model has become unsatisfiable (C02 for clauses)
     #[verifier::external_body]
@@ -101,7 +106,7 @@ impl ConstraintSatisfactionSolver {
         ensures
             forall|a: Asg| #![trigger (final(self).model@)(a)] #![trigger (old(self).model@)(a)] (final(self).model@)(a) <==> ((old(self).model@)(a) && clause_holds(clause.preds(), a)),
             r is Err ==> final(self).unsat(),
-            final(self).ready(),
+            final(self).ready(), final(self).base == old(self).base,
             old(self).state.phase@ is RootInfeasible ==> r is Err,
     { unimplemented!() }
 
@@ -120,6 +125,6 @@ impl ConstraintSatisfactionSolver {
     #[verifier::external_body]
     pub fn extract_clausal_core<B: Brancher>(&mut self, brancher: &mut B) -> (r: CoreExtractionResult)
         requires old(self).state.phase@ is InfeasibleUnderAssumptions
-        ensures final(self).model == old(self).model
+        ensures final(self).model == old(self).model, final(self).base == old(self).base
     { unimplemented!() }
 }
